@@ -131,6 +131,9 @@ class Check:
 
     # ---- output --------------------------------------------------------------------------------
     def finish(self):
+        if self.traces == 0:
+            # a run that judged no execution of the real code says nothing about it: never report that as "held"
+            raise MachineryError("vacuity: no execution of the implementation was judged")
         os.makedirs(EVIDENCE, exist_ok=True)
         for key, what in sorted(self.known_hit.items()):
             print("KNOWN-FINDING: property=%s %s [%s]" % (self.pid, what, key))
